@@ -52,10 +52,40 @@ func payProfile() chain.Profile {
 	}
 }
 
+// lifeProfile: few data models, deep per-model histories (renewals in a row, migrations,
+// hand-overs, expiry boundaries).
+func lifeProfile() chain.Profile {
+	p := payProfile()
+	p.Name = "life"
+	p.MaxData = 2
+	p.Weights = map[string]int{"Blocks": 22, "StoreNew": 6, "StoreUpdate": 5, "Complete": 34, "Cancel": 1, "Terminate": 2,
+		"Renew": 12, "Migrate": 12, "Claim": 4, "AddVstorage": 1, "RemoveVstorage": 1}
+	p.Sizes = []int64{1000, 5000, 10000}
+	p.Timeouts = []int64{20, 1800, 3600}
+	return p
+}
+
+// authProfile: the same world with a third of the requests twisted adversarially; one node
+// (a05) declares other people's addresses as its own transaction addresses.
+func authProfile() chain.Profile {
+	p := payProfile()
+	p.Name = "auth"
+	p.HotKeys = map[string][]string{"a01": {"a11"}, "a02": {"a12"}, "a05": {"a11", "a01", "a07", "a12"}}
+	p.Weights = map[string]int{"Blocks": 14, "StoreNew": 10, "StoreUpdate": 16, "Complete": 24, "Cancel": 5, "CancelAny": 6, "Terminate": 6,
+		"Renew": 6, "Migrate": 3, "Claim": 4, "AddVstorage": 2, "RemoveVstorage": 2, "Permission": 8, "Reset": 1, "Ready": 2}
+	p.Adversarial = 35
+	p.Timeouts = []int64{20, 600, 3600}
+	return p
+}
+
 func profileByName(n string) chain.Profile {
 	switch n {
 	case "pay":
 		return payProfile()
+	case "life":
+		return lifeProfile()
+	case "auth":
+		return authProfile()
 	}
 	die("unknown profile %s", n)
 	return chain.Profile{}
